@@ -515,6 +515,84 @@ def _is_last_vertex_list(f, tt, lt):
     return False
 
 
+def _first_nonempty_schema(m, f, tt):
+    """begin() as a search for the first non-empty list.  True: conforms; str: deviates; None: not this shape"""
+    from .rules_pair import true_atoms
+    fors = [n for n in f.nodes if n['k'] == 'ForStmt']
+    if len(fors) != 1 or any(n['k'] in ('WhileStmt', 'DoStmt', 'CXXForRangeStmt', 'BreakStmt', 'GotoStmt') for n in f.nodes):
+        return None
+    fs = fors[0]
+    init = f.nodes[fs['init']] if fs['init'] >= 0 else None
+    if init is None or init['k'] != 'DeclStmt' or len(init['decls']) != 1:
+        return None
+    v = ('var', init['decls'][0])
+
+    def is_endv(e):
+        if e[0] == 'field' and e[1].endswith('::endVertex'):
+            return True
+        if e[0] in ('call', 'mcall') and e[1].endswith('::getEndVertex'):
+            return True
+        if e[0] == 'var':
+            ds = [tt.t(d[1]) for d in var_defs(f, e[1])]
+            return len(ds) == 1 and ds[0][0] in ('call', 'mcall') and ds[0][1].endswith('::getEndVertex')
+        return False
+
+    def out_of(t, c):
+        t = tt_res(t)
+        return t[0] == 'mcall' and t[1].endswith(('::getOutNeighbours', '::getNeighbours')) and len(t[3]) == 1 and strip_cast(t[3][0]) == c
+
+    def tt_res(t):
+        return t
+
+    def nonempty(a, c):
+        if a[0] == 'un' and a[1] == '!' and a[3][0] == 'mcall' and a[3][1] == 'std::list::empty' and out_of(a[3][2], c):
+            return True
+        if a[0] == 'bin' and a[1] == '!=':
+            l, r = a[2], a[3]
+            if l[0] == 'mcall' and r[0] == 'mcall' and {l[1], r[1]} == {'std::list::begin', 'std::list::end'} and out_of(l[2], c) and out_of(r[2], c):
+                return True
+            if l[0] == 'mcall' and l[1] == 'std::list::size' and out_of(l[2], c) and strip_cast(r) == ('int', 0):
+                return True
+        return False
+    if strip_cast(tt.t(init['c'][0])) != ('int', 0):
+        return 'the search for the first edge does not start at vertex 0'
+    c = tt.t(fs['cond'])
+    if not (c[0] == 'bin' and c[1] == '!=' and c[2] == v and is_endv(c[3])):
+        return 'the search loop does not run over `v != endVertex`'
+    E = c[3]
+    inc = tt.t(fs['inc'])
+    if not (inc[0] == 'un' and inc[1] == '++' and inc[3] == v) or len(var_defs(f, v[1])) != 2:
+        return 'the search loop does not advance the cursor by exactly one per iteration'
+    body = set(f.descendants(fs['body']))
+    rets = [n for n in f.nodes if n['k'] == 'ReturnStmt' and f.children(n['i'])]
+    inner = [n for n in rets if n['i'] in body]
+    after = [n for n in rets if n['i'] not in body and f.can_reach_forward(fs['cond'], n['i'])]
+    if len(inner) != 1 or len(after) != 1:
+        return None
+
+    def ctor3(n):
+        r = tt.t(f.children(n['i'])[0])
+        while r[0] in ('ctor', 'cast') and (r[0] == 'cast' or len(r[2]) == 1):
+            r = r[2][0] if r[0] == 'ctor' else r[2]
+        return r if r[0] == 'ctor' and len(r[2]) == 3 else None
+    r1, r2 = ctor3(inner[0]), ctor3(after[0])
+    if r1 is None or r2 is None:
+        return None
+    if not (r1[2][1] == v and r1[2][2][0] == 'mcall' and r1[2][2][1] == 'std::list::begin' and out_of(r1[2][2][2], v)):
+        return 'the iterator returned from the search loop is not (graph, v, out(v).begin())'
+    cond_pos = f.cfg_pos(fs['cond'])
+    atoms = []
+    for dep in f.region(inner[0]['i']):
+        if dep[0] == cond_pos[0] or dep in f.region_of_block(cond_pos[0]):
+            continue
+        atoms.extend(true_atoms(tt.t(f.branch_atom(dep[0])), dep[1] == 0))
+    if not atoms or not all(nonempty(a, v) for a in atoms):
+        return 'the return inside the search loop is not guarded by exactly the non-emptiness of out(v)'
+    if not (strip_cast(r2[2][1]) == E and r2[2][2][0] == 'mcall' and r2[2][2][1] == 'std::list::begin' and out_of(r2[2][2][2], E)):
+        return 'the iterator returned after the search loop is not (graph, endVertex, out(endVertex).begin())'
+    return True
+
+
 def rule_idx(m):
     res = RuleResult('F-IDX', 'edge enumeration never calls a range-asserting accessor with an internal index that is not in '
                               'range: literal 0 / getEndVertex / size-1 only under a dominating `size != 0`; the cursor is '
@@ -653,12 +731,45 @@ def rule_idx(m):
                     continue
                 res.sites += 1
                 tt = Terms(f)
+                ftt = tt
+                lf = f
+                amap = {}
                 whiles = [n for n in f.nodes if n['k'] == 'WhileStmt']
+                if not whiles:
+                    # the loop may live in a helper that receives cursor and position by reference
+                    for n in f.nodes:
+                        if n['k'] not in ('CallExpr', 'CXXMemberCallExpr') or 'callee' not in n:
+                            continue
+                        g = f.unit.function_for_decl(n['callee'])
+                        if g is None or g.is_lambda or len(g.params) != len(n.get('args', [])):
+                            continue
+                        gw = [x for x in g.nodes if x['k'] == 'WhileStmt']
+                        if len(gw) == 1 and (g.record or '').startswith(cls):
+                            if whiles:
+                                whiles = whiles + gw        # two helpers with loops: not the shape
+                                break
+                            whiles = gw
+                            lf = g
+                            amap = {('var', p): ftt.t(a, resolve_refs=False) for p, a in zip(g.params, n['args'])}
+                    if lf is not f:
+                        tt = Terms(lf)
                 why = None
+                if not whiles and tn.endswith('::begin'):
+                    v2 = _first_nonempty_schema(m, f, tt)
+                    if v2 is True:
+                        res.ok(dict(function=f.display(), schema='for (v = 0; v != endVertex; ++v) if (!out(v).empty()) return (g, v, '
+                                    'out(v).begin()); return (g, endVertex, out(endVertex).begin())') if len(res.samples) < 30 else None,
+                               fn=f.display())
+                        continue
+                    if v2:
+                        res.fail(Finding('F-IDX', f.display(), 'first non-empty list', f.where(), v2 + ': edges after an empty neighbour '
+                                         'list are skipped or enumeration runs past the end'))
+                        continue
                 if len(whiles) != 1:
                     why = 'expected one advance loop over empty neighbour lists'
                 else:
                     w = whiles[0]
+                    f0, f = f, lf
                     cj = [c for c in _conjuncts(tt.t(w['cond'], resolve_refs=False))]
                     it = cur = None
                     endv_ok = False
@@ -668,10 +779,11 @@ def rule_idx(m):
                             it, cur = c[2], c[3][2][3][0]
                     for c in cj:
                         if c[0] == 'bin' and c[1] == '!=' and cur is not None and c[2] == cur:
-                            e = c[3]
+                            e = amap.get(c[3], c[3])
                             if (e[0] == 'field' and e[1].endswith('::endVertex')) or \
+                                    (e[0] in ('call', 'mcall') and e[1].endswith('::getEndVertex')) or \
                                     (e[0] == 'var' and any(x[0] in ('call', 'mcall') and x[1].endswith('::getEndVertex')
-                                                           for x in [tt.t(d[1]) for d in var_defs(f, e[1]) if d[1] >= 0])):
+                                                           for x in [ftt.t(d[1]) for d in var_defs(f0, e[1]) if d[1] >= 0])):
                                 endv_ok = True
                     if it is None or not endv_ok or len(cj) != 2:
                         why = 'the advance loop condition is not `position == out(cursor).end() && cursor != endVertex`'
@@ -682,6 +794,17 @@ def rule_idx(m):
                                   and b[3][2][0] == 'mcall' and b[3][2][3] == (('un', '++', False, cur),) for b in body)
                         if not okb:
                             why = 'the advance loop body is not `position = out(++cursor).begin()`'
+                        if lf is not f0 and why is None:
+                            # the helper does nothing but the loop, and receives cursor and position by reference
+                            other = [x for x in lf.nodes if x['k'] in ('ReturnStmt', 'IfStmt', 'ForStmt', 'DoStmt', 'CXXForRangeStmt', 'DeclStmt')
+                                     and not (x['k'] == 'ReturnStmt' and not lf.children(x['i']))]
+                            byref = all(t0[0] == 'var' and t0[1] in lf.params and lf.cptypes[lf.params.index(t0[1])].endswith('&') and
+                                        not lf.cptypes[lf.params.index(t0[1])].startswith('const ') for t0 in (it, cur))
+                            if other or not byref:
+                                why = 'expected a helper consisting of the advance loop over (cursor, position) passed by reference'
+                        f = f0
+                        tt = ftt
+                        it, cur = amap.get(it, it), amap.get(cur, cur)
                         if why is None and tn.endswith('::begin'):
                             # initial position: cursor 0 and out(0).begin(); result (graph, cursor, position)
                             inits_it = [tt.t(d[1]) for d in var_defs(f, it[1]) if d[1] >= 0 and d[0] not in f.descendants(w['i'])] if it[0] == 'var' else []
@@ -788,10 +911,24 @@ def rule_idx(m):
         tt = Terms(f)
         dos = [n for n in f.nodes if n['k'] == 'DoStmt']
         why = None
-        if len(dos) != 1:
+        c = None
+        if len(dos) == 1:
+            c = tt.t(dos[0]['cond'])
+        elif not dos:
+            # for (;;) { advance; if (stop) return *this; }: skipping continues while !stop
+            inf = [n for n in f.nodes if (n['k'] == 'ForStmt' and n['cond'] < 0) or
+                   (n['k'] == 'WhileStmt' and tt.t(n['cond']) in (('bool', True), ('int', 1)))]
+            if len(inf) == 1 and not any(n['k'] in ('BreakStmt', 'GotoStmt', 'ContinueStmt') for n in f.nodes):
+                body = set(f.descendants(inf[0]['body']))
+                ifs = [n for n in f.nodes if n['k'] == 'IfStmt' and n['i'] in body]
+                rets = [n for n in f.nodes if n['k'] == 'ReturnStmt']
+                if len(ifs) == 1 and len(rets) == 1 and ifs[0]['else'] < 0 and rets[0]['i'] in f.descendants(ifs[0]['then']) and \
+                        f.nodes[inf[0]['body']]['k'] == 'CompoundStmt' and f.nodes[inf[0]['body']]['c'][-1] == ifs[0]['i']:
+                    from .terms import _not
+                    c = _not(tt.t(ifs[0]['cond']))
+        if c is None:
             why = 'expected a do-while skipping the mirrored half-edges'
         else:
-            c = tt.t(dos[0]['cond'])
             v = None
             nb = None
             for st in subterms(c):
